@@ -70,7 +70,7 @@ def pool_core(rng, n_extra):
     return P
 
 
-OPENS = {"dz": "dwz-partial", "nt": "nontrivial-types.o", "a1": "a1.out", "dz2": "dwz-partial"}
+OPENS = {"dz": "dwz-partial", "nt": "nontrivial-types.o", "a1": "a1.out", "dz2": "dwz-partial", "dz21": "dwz-partial2-1", "dz31": "dwz-partial3-1"}
 
 
 def pool_dwarf():
@@ -91,6 +91,12 @@ def pool_dwarf():
     P.append(("%s,%s" % (d, q("[raw unit] elem ?0")), "cu"))
     P.append(("%s,%s" % (d, q("[raw unit] elem ?1")), "cu"))
     P.append((d, "dwarf")); P.append((d + "," + q("raw"), "dwarf")); P.append(("v:dz2", "dwarf"))
+    # one and the same unit root, reached as the end of the parent chain of DIEs that came in through DIFFERENT imports
+    for h in ("v:dz21", "v:dz31"):
+        for k in range(5):
+            P.append(("%s,%s" % (h, q("[entry ?(parent) parent* ?root] elem ?%d" % (k * 7))), "die"))
+        P.append(("%s,%s" % (h, q("[unit root] elem ?0")), "die"))
+        P.append(("%s,%s" % (h, q("[entry ?(parent) parent] relem ?0")), "die"))
     d2 = "v:nt"
     P.append((d2, "dwarf"))
     for k in range(3):
@@ -129,10 +135,38 @@ def typeof(v):
     return v["t"] + (":" + v["d"] if False else "")
 
 
+def pool_families():
+    """Up to three constants with the numbers 0..3 from EVERY family of named constants the vocabulary offers (DW_TAG_, DW_DSC_, DW_ORD_, ...):
+    equal numbers in unrelated families must never be equal."""
+    d = common.Driver()
+    try:
+        voc = d.req("voc")["words"]
+        fams = {}
+        for w in voc:
+            m = __import__("re").match(r"^(DW_[A-Z]+_|ST[TBV]_|T_)", w)
+            if m and not w.endswith(("_lo_user", "_hi_user")):
+                fams.setdefault(m.group(1), []).append(w)
+        P = []
+        for f, ws in sorted(fams.items()):
+            got = {}
+            for w in ws[:60]:
+                r = d.run(w + " value")
+                if r["st"] == "done" and len(r["res"]) == 1 and r["res"][0][0]["t"] == "c":
+                    n = int(r["res"][0][0]["v"])
+                    if 0 <= n <= 3 and n not in got:
+                        got[n] = w
+                if len(got) == 4:
+                    break
+            P += [(q(w), "named") for n, w in sorted(got.items())][:3]
+        return P
+    finally:
+        d.kill()
+
+
 def run(chk):
     quick = chk.tier == "quick"
     rng = chk.rng()
-    P = pool_core(rng, 0 if quick else 110) + pool_dwarf()
+    P = pool_core(rng, 0 if quick else 110) + pool_families() + pool_dwarf()
     specs = [p[0] for p in P]
     n = len(specs)
     words = WORDS + ["?(|A B| (A %s B))" % op for op in INFIX]
@@ -285,6 +319,24 @@ def run(chk):
                     bad("named-constants-of-unrelated-domains-equal", a=desc(i), b=desc(j), da=di, db=dj)
                 elif vals[i]["f"] != vals[j]["f"]:
                     bad("equal-constants-render-differently", a=desc(i), b=desc(j), fa=vals[i]["f"], fb=vals[j]["f"])
+    # the same by the WORDS the constants were written with (not by the domain the engine reports for them): two words of different
+    # families (DW_DSC_label, DW_ORD_row_major) never denote equal constants
+    import re as _re
+    def wordfam(i):
+        sp = specs[i]
+        if not sp.startswith("q:"):
+            return None
+        try:
+            w = bytes.fromhex(sp[2:]).decode("latin-1")
+        except ValueError:
+            return None
+        m = _re.fullmatch(r"(DW_[A-Z]+_|ST[TBV]_|T_)[A-Za-z0-9_]+", w)
+        return m.group(1) if m else None
+    wf = {i: wordfam(i) for i in groups.get("c", [])}
+    for i in groups.get("c", []):
+        for j in groups.get("c", []):
+            if i < j and wf[i] and wf[j] and wf[i] != wf[j] and (B(eq, i, j) or B(eq, j, i)):
+                bad("constants-written-with-words-of-different-families-equal", a=desc(i), b=desc(j), words=[specs[i], specs[j]], families=[wf[i], wf[j]])
     # ELF: a machine-specific code never equals the same number of another machine, common codes do
     stt = [i for i in named if vals[i]["d"] == "STT_"]
     for i in stt:
@@ -344,7 +396,7 @@ def run(chk):
 def die_pattern(a, b, c):
     """a==b, b==c, a!=c among T_DIE: is the middle one a raw / route-less 'template' of the same DIE reached by two different import routes?"""
     try:
-        same = a["o"] == b["o"] == c["o"]
+        same = a["o"] == b["o"] == c["o"] and a["tag"] != 0x11      # (a DW_TAG_compile_unit DIE lies in no partial unit: it has no routes)
         template = b["raw"] or not b["imp"]
         routed = (not a["raw"]) and (not c["raw"]) and a["imp"] and c["imp"] and a["imp"] != c["imp"]
         if same and template and routed:
